@@ -180,3 +180,40 @@ Proof.
   unfold py_splitname in *. eapply (splitname_spelling_plain py_is_ws py_upper_char py_lower_char py_cased py_ignorable); try discharge.
   apply expands_squeeze; [assumption | apply Hp].
 Qed.
+
+Notation pnot_a_name := (not_a_name py_is_ws py_lower_char py_cased py_ignorable).
+
+Lemma py_spelling_foreign nm st p P' E1 C E4 dns d Ld a b :
+  In (nm, st) all_sites ->
+  Forall pedge' E1 -> Forall pedge' (match C with Some E2 => E2 | None => [] end) -> Forall pedge' E4 ->
+  ptidy p -> head_not_colon p -> expands p P' ->
+  d = (match C with Some _ => 0%Z | None => dns end) -> star_of st d = Some Ld ->
+  split1 c_colon (pcap (s_capitalize st) p) = Some (a, b) -> pnot_a_name st a ->
+  py_splitname st (E1 ++ lead C ++ P' ++ E4) dns
+  = Ok (d, pcap (s_capitalize st) p, prefix_of Ld ++ pcap (s_capitalize st) p).
+Proof.
+  intros Hin H1 HC H4 Hp Hh Hexp Hd HLd Hs Hn.
+  unfold py_splitname in *. eapply (splitname_spelling_foreign py_is_ws py_upper_char py_lower_char py_cased py_ignorable); try discharge.
+  apply expands_squeeze; [assumption | apply Hp].
+Qed.
+
+(* "Portal" is a namespace of en.wikipedia.org (100) and of no namespace table of simple.wikipedia.org — although both
+   report sitename "Wikipedia", lang "en" *)
+Lemma portal_en_simple :
+  exists en simple, In ([101; 110], en) all_sites /\ In ([115; 105; 109; 112; 108; 101], simple) all_sites /\
+  py_splitname en [112; 111; 114; 116; 97; 108; 58; 120] 0%Z = Ok (100%Z, [88], [80; 111; 114; 116; 97; 108; 58; 88]) /\
+  py_splitname simple [112; 111; 114; 116; 97; 108; 58; 120] 0%Z = Ok (0%Z, [80; 111; 114; 116; 97; 108; 58; 120], [80; 111; 114; 116; 97; 108; 58; 120]) /\
+  pnot_a_name simple [80; 111; 114; 116; 97; 108].
+Proof.
+  destruct (site_by_name [101; 110]) as [en|] eqn:E1; [|vm_compute in E1; discriminate E1].
+  destruct (site_by_name [115; 105; 109; 112; 108; 101]) as [si|] eqn:E2; [|vm_compute in E2; discriminate E2].
+  exists en, si. unfold site_by_name in E1, E2.
+  destruct (find (fun p => str_eqb (fst p) [101; 110]) all_sites) as [[n1 s1]|] eqn:F1; [|discriminate E1].
+  destruct (find (fun p => str_eqb (fst p) [115; 105; 109; 112; 108; 101]) all_sites) as [[n2 s2]|] eqn:F2; [|discriminate E2].
+  cbn [snd] in E1, E2. inversion E1; inversion E2; subst s1 s2.
+  pose proof (find_some _ _ F1) as [I1 N1]. pose proof (find_some _ _ F2) as [I2 N2].
+  cbn [fst] in N1, N2. apply str_eqb_spec in N1, N2. subst n1 n2.
+  split; [exact I1|]. split; [exact I2|].
+  vm_compute in F1. vm_compute in F2. inversion F1; inversion F2; subst.
+  split; [vm_compute; reflexivity|]. split; [vm_compute; reflexivity|]. split; vm_compute; reflexivity.
+Qed.
